@@ -82,6 +82,15 @@ def unpack_rewrite(t):
     return t
 
 
+def uniform_draws(t):
+    """numpy: random_sample(n) / random(n) / ranf(n) / sample(n) are rand(n) - n uniform [0, 1) draws from the global legacy generator."""
+    if head(t) == "call" and head(strip(t[1])) == "glob" and strip(t[1])[1] in ("numpy.random.random_sample", "numpy.random.random", "numpy.random.ranf", "numpy.random.sample"):
+        a = list(t[2]) + [v for k, v in t[3] if k == "size"]
+        if len(a) == 1 and len(t[2]) + len(t[3]) == 1 and head(strip(a[0])) != "tuple":
+            return ("call", ("glob", "numpy.random.rand"), (a[0],), ())
+    return t
+
+
 def hide_objective(t):
     if head(t) == "call" and strip(t[1]) == ("glob", "scipy.optimize.minimize_scalar"):
         kws = tuple((k, (const("<OBJ>") if k == "fun" else v)) for k, v in t[3])
@@ -90,7 +99,7 @@ def hide_objective(t):
 
 
 def equiv(vec=None):
-    return Equiv(vec=vec, rewrites=std_rewrites() + [unpack_rewrite, hide_objective],
+    return Equiv(vec=vec, rewrites=std_rewrites() + [unpack_rewrite, uniform_draws, hide_objective],
                  modelled={"numpy.random.choice", "numpy.random.rand", "numpy.unique", "builtins.int", "builtins.isinstance", "scipy.optimize.minimize_scalar",
                            "scipy.special.zeta", "numpy.concatenate", "numpy.repeat", "builtins.enumerate", "builtins.dict"})
 
